@@ -5,7 +5,9 @@ use crate::util::*;
 use h264_reader::annexb::AnnexBReader;
 
 pub struct Oracle { run: Runner, full_nal: Vec<u8>, /// C19: what has been accepted since the last reset (id -> rendering of the parameter set)
-    sps_seen: std::collections::BTreeMap<u8, String>, pps_seen: std::collections::BTreeMap<u8, String> }
+    sps_seen: std::collections::BTreeMap<u8, String>, pps_seen: std::collections::BTreeMap<u8, String>,
+    /// C06 / C16: the parameter sets accepted since the last reset, kept as values outside any `Context` (last writer wins)
+    sps_objs: std::collections::BTreeMap<u8, h264_reader::nal::sps::SeqParameterSet>, pps_objs: std::collections::BTreeMap<u8, h264_reader::nal::pps::PicParameterSet> }
 
 /// Annex B segmentation of a whole stream followed by end of stream: bytes of each unit and an end marker `E`
 pub fn reference_segmentation(s: &[u8]) -> Vec<String> {
@@ -47,7 +49,7 @@ fn events(calls: &[String]) -> Vec<String> {
 }
 
 impl Oracle {
-    pub fn new() -> Oracle { Oracle { run: Runner::new(), full_nal: vec![], sps_seen: Default::default(), pps_seen: Default::default() } }
+    pub fn new() -> Oracle { Oracle { run: Runner::new(), full_nal: vec![], sps_seen: Default::default(), pps_seen: Default::default(), sps_objs: Default::default(), pps_objs: Default::default() } }
     pub fn check(&mut self, prop: &str, line: &str) -> String {
         let r = std::panic::catch_unwind(std::panic::AssertUnwindSafe(|| self.check_inner(prop, line)));
         match r { Ok(s) => s, Err(_) => "FAIL panic".to_string() }
@@ -117,10 +119,40 @@ impl Oracle {
                 }
                 "ok".into()
             }
+            // slice headers against the history-built context must equal slice headers against a context freshly assembled from
+            // the independently kept latest parameter sets (all SPS first, then all PPS): stores do not disturb each other and a
+            // parser always sees the latest definition of the ids it follows
+            ("C06", "reset") | ("C16", "reset") => { self.sps_objs.clear(); self.pps_objs.clear(); let _ = self.run.run_line(line); "ok".into() }
+            ("C06", "sps") => { let d = unhex(toks.get(1).copied().unwrap_or(""));
+                if let Ok(s) = h264_reader::nal::sps::SeqParameterSet::from_bits(h264_reader::rbsp::BitReader::new(&d[..])) { self.sps_objs.insert(s.seq_parameter_set_id.id(), s); }
+                let _ = self.run.run_line(line); "ok".into() }
+            ("C06", "pps") => { let d = unhex(toks.get(1).copied().unwrap_or(""));
+                let rc = self.ref_ctx();
+                if let Ok(p) = h264_reader::nal::pps::PicParameterSet::from_bits(&rc, h264_reader::rbsp::BitReader::new(&d[..])) { self.pps_objs.insert(p.pic_parameter_set_id.id(), p); }
+                let _ = self.run.run_line(line); "ok".into() }
+            ("C06", "slice") => {
+                let got = self.run.run_line(line);
+                let mut fresh = Runner::new(); fresh.ctx = self.ref_ctx();
+                let want = fresh.run_line(line);
+                if got == want { "ok".into() } else { format!("FAIL slice header against the context built by the history of puts gives [{}] but against a context assembled afresh from the latest accepted parameter sets gives [{}]", &got[..got.len().min(400)], &want[..want.len().min(400)]) }
+            }
             ("C11", "pt") => self.c11_pt(&toks, line),
+            ("C11", "t35") => {
+                // T.35: one country-code byte, or ff + one extension byte; the remainder starts right behind them
+                let d = unhex(toks.get(1).copied().unwrap_or(""));
+                let got = self.run.run_line(line);
+                let want_rest = |k: usize| hex(&d[k..]);
+                if d.is_empty() { if got.starts_with("NotEnoughData(1,0)") { "ok".into() } else { format!("FAIL empty T.35 payload: {}", got) } }
+                else if d[0] == 0xff {
+                    if d.len() < 2 { if got.starts_with("NotEnoughData(2,1)") { "ok".into() } else { format!("FAIL ff alone must be refused as too short: {}", got) } }
+                    else { let w = format!("Ok(ext:{},{})", d[1], want_rest(2)); if got == w { "ok".into() } else { format!("FAIL extended country code: got [{}] expected [{}]", got, w) } }
+                } else if !(got.starts_with("Ok(") && got.ends_with(&format!(",{})", want_rest(1)))) { format!("FAIL the remainder must start behind the country code byte: {}", got) }
+                else if d[0] <= 0xc4 && !got.starts_with(&format!("Ok(code:{},", d[0])) { format!("FAIL country code {:#x} is assigned by T.35 but came back as {}", d[0], got) }
+                else { "ok".into() }
+            }
             ("C13", "derived") => self.c13(line),
             ("C16", "sps") | ("C16", "pps") | ("C16", "slice") => self.c16(&toks, line),
-            ("C09", "avcc") | ("C19", "avcc") | ("C20", "avcc") => self.c09(toks.get(1).copied().unwrap_or(""), line),
+            ("C09", "avcc") | ("C19", "avcc") | ("C20", "avcc") | ("C12", "avcc") => self.c09(toks.get(1).copied().unwrap_or(""), line),
             ("C12", "stream") => self.c12(&toks[1..], line),
             ("C17", "full") => { self.full_nal = unhex(toks.get(1).copied().unwrap_or("")); "ok".into() }
             ("C17", "nal") => self.c17(&toks, line),
@@ -141,6 +173,7 @@ impl Oracle {
             ("C20", _) | ("C13", "profile") | ("C13", "level") => self.c20(&toks),
             // (a dump line has no input: what is allocated there is the harness's own rendering of the context)
             ("C03", "dump") => { let o = self.run.run_line(line); if o == "PANIC" { "FAIL panic".into() } else { "ok".into() } }
+            ("C03", "avcc") if Self::avcc_iterators_end(&unhex(toks.get(1).copied().unwrap_or(""))).is_some() => Self::avcc_iterators_end(&unhex(toks.get(1).copied().unwrap_or(""))).unwrap(),
             ("C03", _) => {
                 // (the constant covers the parameter-set tables: 256 slots of a PPS, 32 of an SPS - fixed, input-independent sizes)
                 // input size in bytes (hex digits / 2); the whole case execution (library + the harness's own parsing and
@@ -389,6 +422,12 @@ impl Oracle {
         "ok".into()
     }
 
+    fn ref_ctx(&self) -> h264_reader::Context {
+        let mut c = h264_reader::Context::new();
+        for s in self.sps_objs.values() { c.put_seq_param_set(s.clone()); }
+        for p in self.pps_objs.values() { c.put_pic_param_set(p.clone()); }
+        c
+    }
     fn c19(&mut self, ops: &[&str], line: &str) -> String {
         let obs = self.run.run_line(line);
         if obs == "PANIC" { return "FAIL panic".into(); }
@@ -407,10 +446,24 @@ impl Oracle {
     }
 
     /// reference reading of an AVCDecoderConfigurationRecord (ISO/IEC 14496-15 5.2.4.1), independent of the library
+    /// every accepted record: each iterator ends after at most the declared number of items, however long the caller keeps
+    /// pulling (an iterator that repeats an error for ever is a hang for `count()` / `filter_map(Result::ok)` callers)
+    fn avcc_iterators_end(d: &[u8]) -> Option<String> {
+        use h264_reader::avcc::AvcDecoderConfigurationRecord; use std::convert::TryFrom;
+        if let Ok(a) = AvcDecoderConfigurationRecord::try_from(d) {
+            let nsps = a.num_of_sequence_parameter_sets();
+            let got = a.sequence_parameter_sets().take(nsps + 3).count();
+            if got > nsps { return Some(format!("FAIL sequence_parameter_sets() yielded more than the {} declared items (still going after {})", nsps, got)); }
+            let got = a.picture_parameter_sets().take(259).count();
+            if got > 255 { return Some(format!("FAIL picture_parameter_sets() did not end after 255 items ({} pulled)", got)); }
+        }
+        None
+    }
     fn c09(&mut self, h: &str, line: &str) -> String {
         let obs = self.run.run_line(line);
         if obs == "PANIC" || obs.contains("PANIC") { return "FAIL panic".into(); }
         let d = unhex(h);
+        if let Some(f) = Self::avcc_iterators_end(&d) { return f; }
         if d.len() < 6 { return if obs == format!("NotEnoughData(6,{})", d.len()) { "ok".into() } else { format!("FAIL a {}-byte record was not refused as too short: {}", d.len(), &obs[..obs.len().min(80)]) }; }
         if d[0] != 1 { return if obs == format!("UnsupportedVersion({})", d[0]) { "ok".into() } else { format!("FAIL version {} not refused: {}", d[0], &obs[..obs.len().min(80)]) }; }
         // walk the declared entries; any entry cut short means the record must be refused
@@ -562,6 +615,16 @@ impl Oracle {
                 if !blocks && !same { verdict = format!("FAIL prefix of {} bytes gave [{}] but the complete NAL gives [{}]", bytes.len(), &p1[..p1.len().min(300)], &f[..f.len().min(300)]); }
                 if p1.starts_with("sps:Ok") || p1.starts_with("pps:Ok") { verdict = format!("FAIL a parameter set was accepted from a proper prefix ({} of {} bytes)", bytes.len(), self.full_nal.len()); }
             }
+        }
+        // scratch storage left behind by an earlier reader (empty, dirty, longer than any payload here) must not change what an SEI NAL yields
+        if verdict == "ok" && !bytes.is_empty() && bytes[0] & 0x9f == 6 {
+            let refs: Vec<&[u8]> = chunks.iter().map(|c| &c[..]).collect();
+            let nal = RefNal::new(refs[0], &refs[1..], complete);
+            use h264_reader::nal::Nal;
+            let a = self.run.sei_messages_scratch(nal.rbsp_bytes(), vec![]).join(" ");
+            let b = self.run.sei_messages_scratch(nal.rbsp_bytes(), vec![0x5Au8; 300]).join(" ");
+            let c = self.run.sei_messages_scratch(nal.rbsp_bytes(), vec![0xAAu8; 7]).join(" ");
+            if a != b || a != c { verdict = format!("FAIL the SEI messages depend on what the scratch storage held before: empty [{}] / 300 dirty bytes [{}] / 7 dirty bytes [{}]", &a[..a.len().min(200)], &b[..b.len().min(200)], &c[..c.len().min(200)]); }
         }
         let _ = self.run.run_line(line);
         verdict
